@@ -18,39 +18,42 @@ Msg(tag, card, ty) == [F(tag, "message", card) EXCEPT !.ty = ty, !.lty = ty]
 
 MCT ==
   [Leaf |-> <<P(F(1, "uint64", "single")), P(F(2, "string", "single"))>>,
-   S |-> <<P(F(1, "bool", "single")), P(F(2, "uint32", "single")), P(F(3, "int32", "single")), P(F(4, "uint64", "single")),
-           P(F(5, "string", "single")), P(F(6, "bytes", "single")), P(F(7, "enum", "single")), P(F(8, "fixed64", "single"))>>,
-   R |-> <<P(F(1, "uint64", "repeated")), P(F(2, "string", "repeated")), P(Msg(3, "repeated", "Leaf")), P(Msg(4, "optional", "Leaf")),
-           P([F(5, "uint64", "map") EXCEPT !.kk = "string"]), P([F(6, "int32", "repeated") EXCEPT !.packed = FALSE]),
-           P(F(7, "bytes", "optional")), P(F(8, "bool", "required")), P([Msg(20, "map", "Leaf") EXCEPT !.kk = "uint32"])>>,
+   S1 |-> <<P(F(1, "bool", "single")), P(F(2, "uint32", "single")), P(F(3, "int32", "single")), P(F(4, "uint64", "single"))>>,
+   S2 |-> <<P(F(5, "string", "single")), P(F(6, "bytes", "single")), P(F(7, "enum", "single")), P(F(8, "fixed64", "single"))>>,
+   R1 |-> <<P(F(1, "uint64", "repeated")), P(F(2, "string", "repeated")), P([F(6, "int32", "repeated") EXCEPT !.packed = FALSE]),
+            P(F(7, "bytes", "optional")), P(F(8, "bool", "required"))>>,
+   R2 |-> <<P(Msg(3, "repeated", "Leaf")), P(Msg(4, "optional", "Leaf")), P([F(5, "uint64", "map") EXCEPT !.kk = "string"]),
+            P([Msg(20, "map", "Leaf") EXCEPT !.kk = "uint32"])>>,
    O |-> <<[oneof |-> TRUE, fs |-> <<Msg(1, "oneof", "Leaf"), F(3, "string", "oneof"), F(4, "uint64", "oneof")>>],
            P(F(2, "uint64", "single"))>>]
 D(n) == [T |-> MCT, name |-> n]
-Names == {"Leaf", "S", "R", "O"}
+Names == {"Leaf", "S1", "S2", "R1", "R2", "O"}
 
 M1 == <<127, 127, 127, 127, 127, 127, 127, 127, 127, 1>>                   \* digits of 2^64 - 1
 U32max == <<127, 127, 127, 127, 15>>
 Leafs == {[k \in {1, 2} |-> IF k = 1 THEN u ELSE s] : u \in {<< >>, <<1>>}, s \in {<< >>, <<97>>}}
 L0 == [k \in {1, 2} |-> << >>]
 L1 == [k \in {1, 2} |-> IF k = 1 THEN <<1>> ELSE <<97>>]
-Fn(keys, tuple) == [k \in DOMAIN keys |-> tuple[k]]
+\* the message value with keys ks (a sequence of entry keys) and entry values t (a tuple)
+Val(ks, t) == [k \in {ks[i] : i \in DOMAIN ks} |-> t[CHOOSE i \in DOMAIN ks : ks[i] = k]]
 
-SVals == {[k \in 1..8 |-> t[k]] : t \in {<< >>, <<1>>} \X {<< >>, <<1>>, U32max} \X {<< >>, <<1>>, M1} \X {<< >>, <<5, 1>>, M1}
-                                       \X {<< >>, <<97>>, <<195, 169>>} \X {<< >>, <<255>>} \X {<< >>, <<7>>}
-                                       \X {Zeros(8), <<1, 0, 0, 0, 0, 0, 0, 128>>}}
-RKeys == {1, 2, 3, 4, 5, 6, 7, 8, 20}
-RVals == {[k \in RKeys |-> IF k = 20 THEN t[9] ELSE t[k]] :
-            t \in {<< >>, <<<<1>>>>, <<<<1>>, << >>>>, <<M1>>} \X {<< >>, <<<< >>>>, <<<<97>>, <<97>>>>}
-                  \X {<< >>, <<L0>>, <<L1, L0>>} \X {<< >>, <<L0>>, <<L1>>}
-                  \X {<< >>, <<[k |-> <<97>>, v |-> <<1>>]>>, <<[k |-> << >>, v |-> << >>]>>,
-                      <<[k |-> <<98>>, v |-> << >>], [k |-> <<97>>, v |-> M1]>>}
-                  \X {<< >>, <<<<1>>, M1>>} \X {<< >>, <<<< >>>>, <<<<255>>>>} \X {<< >>, <<1>>}
-                  \X {<< >>, <<[k |-> <<3>>, v |-> L1], [k |-> << >>, v |-> L0]>>}}
-OVals == {[k \in {1, 2} |-> IF k = 1 THEN o ELSE u] :
-            o \in {<< >>} \cup {<<[tag |-> 1, val |-> l]>> : l \in {L0, L1}} \cup {<<[tag |-> 3, val |-> s]>> : s \in {<< >>, <<97>>}}
-                  \cup {<<[tag |-> 4, val |-> s]>> : s \in {<< >>, <<1>>}},
+S1Vals == {Val(<<1, 2, 3, 4>>, t) : t \in {<< >>, <<1>>} \X {<< >>, <<1>>, U32max} \X {<< >>, <<1>>, M1} \X {<< >>, <<5, 1>>, M1}}
+S2Vals == {Val(<<5, 6, 7, 8>>, t) : t \in {<< >>, <<97>>, <<195, 169>>} \X {<< >>, <<255>>} \X {<< >>, <<7>>}
+                                          \X {Zeros(8), <<1, 0, 0, 0, 0, 0, 0, 128>>}}
+R1Vals == {Val(<<1, 2, 6, 7, 8>>, t) :
+             t \in {<< >>, <<<<1>>>>, <<<<1>>, << >>>>, <<M1>>} \X {<< >>, <<<< >>>>, <<<<97>>, <<97>>>>}
+                   \X {<< >>, <<<<1>>, M1>>} \X {<< >>, <<<< >>>>, <<<<255>>>>} \X {<< >>, <<1>>}}
+R2Vals == {Val(<<3, 4, 5, 20>>, t) :
+             t \in {<< >>, <<L0>>, <<L1, L0>>} \X {<< >>, <<L0>>, <<L1>>}
+                   \X {<< >>, <<[k |-> <<97>>, v |-> <<1>>]>>, <<[k |-> << >>, v |-> << >>]>>,
+                       <<[k |-> <<98>>, v |-> << >>], [k |-> <<97>>, v |-> M1]>>}
+                   \X {<< >>, <<[k |-> <<3>>, v |-> L1], [k |-> << >>, v |-> L0]>>}}
+OVals == {Val(<<1, 2>>, <<o, u>>) :
+            o \in {<< >>} \cup {<<[tag |-> 1, val |-> x]>> : x \in {L0, L1}} \cup {<<[tag |-> 3, val |-> x]>> : x \in {<< >>, <<97>>}}
+                  \cup {<<[tag |-> 4, val |-> x]>> : x \in {<< >>, <<1>>}},
             u \in {<< >>, <<1>>}}
-Vals(n) == CASE n = "Leaf" -> Leafs [] n = "S" -> SVals [] n = "R" -> RVals [] n = "O" -> OVals
+Vals(n) == CASE n = "Leaf" -> Leafs [] n = "S1" -> S1Vals [] n = "S2" -> S2Vals [] n = "R1" -> R1Vals [] n = "R2" -> R2Vals
+             [] n = "O" -> OVals
 
 VARIABLE st
 MCInit ==
